@@ -35,6 +35,7 @@ import DiskfsModel.Proofs.FatTreeFree
 import DiskfsModel.Proofs.FatTreeFit
 import DiskfsModel.Proofs.FatTreeImgStep
 import DiskfsModel.Proofs.FatTreeSpace
+import DiskfsModel.Proofs.FatEmptyWrite
 import DiskfsModel.Model.Fat.Fs
 import DiskfsModel.Generated.Fat
 namespace Diskfs.Fat.C01
@@ -467,6 +468,78 @@ example : (tstep exEqn exTGeom2 8 exTree2 (.create [[66]] [67] [])).2 ≠ .nospa
 /-- the numeric-tail search returns a short name no existing entry has -/
 theorem uniqueShort_fresh (stem ext : Name) (existing : List Name) :
     (uniqueShortName stem ext existing ++ ext) ∉ existing := Fat.uniqueShort_fresh stem ext existing
+
+/-! ### zero-length writes (the code has no early return for an empty buffer) -/
+
+/-- `File.Write` of an EMPTY buffer (`f.Write(nil)`, `f.Write([]byte{})`), mirrored step by step
+    (`fileWriteRaw`: allocateSpace(max size offset), zero-fill of a gap, the WriteAt calls - no
+    shortcut for `len(p) = 0`), at any offset inside the file or at its end (unless the end is a
+    positive whole number of clusters, see `cex_empty_write_panics`) of a well-formed file
+    (chain `l` exactly as long as its size needs, one cluster when empty, that cluster carrying
+    the library's end-of-chain value): the table, the device bytes, the entry's chain and its size
+    are what they were.  In particular allocateSpace(0, c) - reached by this call on an empty file
+    and by nothing else - KEEPS the file's only cluster (`count = 0` is clamped to one cluster).
+    The directory rewrite that follows (`writeDirectoryEntries(parent)`) is handed the unchanged
+    child list. -/
+theorem write_empty_is_noop (g : FGeom) (fuel : Nat) (m : CMap) (d : Dev) (l : List Nat)
+    (others : List (List Nat)) (size off : Nat)
+    (hb : 0 < g.io.bpc) (hlim : LimOk g.kind g.lim) (hmax : g.lim ≤ g.max) (hf : l.length ≤ fuel)
+    (h : Inv g.kind g.lim m (l :: others))
+    (hlen : l.length = Nat.max (clusterCount g.io.bpc size) 1)
+    (hmark : size = 0 → m (l.headD 0) = g.kind.eoc)
+    (hoff : off ≤ size) (hnb : ¬ (0 < off ∧ off = size ∧ off % g.io.bpc = 0)) :
+    ∃ w, fileWriteRaw g fuel m d l size off [] = .ok m d l size w := by
+  have hlen' : l.length = Nat.max (cnt size g.io.bpc) 1 := hlen
+  have ha := alloc_same_size (pick := firstFit g.lim) (bpc := g.io.bpc) h hlim hmax hf hlen'
+  have hns : Nat.max size (off + ([] : Bytes).length) = size := by
+    show Max.max size (off + 0) = size; omega
+  have hwH : writeH true g.io l size off [] = writeCore g.io l off [] := by
+    unfold writeH; rw [if_neg (by intro hh; exact absurd hh.2 (by omega))]
+  have hin := off_cluster_in_chain (len := l.length) hb hlen' hoff hnb
+  have hsome : ∃ ws, writeCore g.io l off [] = some ws := by
+    cases hw : writeCore g.io l off [] with
+    | some ws => exact ⟨ws, rfl⟩
+    | none =>
+      have := (writeCore_nil_none_iff g.io l off).1 hw
+      rcases hin with h0 | hlt
+      · exact absurd h0 this.1
+      · omega
+  obtain ⟨ws, hws⟩ := hsome
+  have hd : applyWrs d ws = d := applyWrs_empty d ws (writeCore_nil_empty g.io l off ws hws)
+  unfold fileWriteRaw falloc
+  simp only [hns]
+  rw [ha]
+  by_cases hc : cnt size g.io.bpc = 0
+  · have hs0 : size = 0 := by
+      rcases Nat.eq_zero_or_pos size with h0 | hp
+      · exact h0
+      · have := cnt_pos hb hp; omega
+    rw [if_pos hc]
+    simp only [hwH, hws, hd]
+    rw [set_same m _ _ (hmark hs0)]
+    exact ⟨true, rfl⟩
+  · rw [if_neg hc]
+    simp only [hwH, hws, hd]
+    exact ⟨false, rfl⟩
+
+/-- the hypotheses of `write_empty_is_noop` are satisfiable: an empty file owning cluster 2 -/
+example : ∃ w, fileWriteRaw ⟨.f12, 10, 10, ⟨0, 0, 4⟩⟩ 8 exTable (fun _ => 7) [2] 0 0 [] = .ok exTable (fun _ => 7) [2] 0 w :=
+  write_empty_is_noop ⟨.f12, 10, 10, ⟨0, 0, 4⟩⟩ 8 exTable (fun _ => 7) [2] [[3, 4]] 0 0 (by decide) ex_limOk
+    (Nat.le_refl _) (by decide) ex_inv (by decide) (fun _ => by decide) (Nat.le_refl _) (by omega)
+
+/-- as found, past EOF an empty write is NOT a no-op: the file grows to the offset (finding
+    fat-empty-write-not-noop; the specification and POSIX say nothing changes) -/
+theorem cex_empty_write_extends :
+    (fileWriteRaw ⟨.f12, 10, 10, ⟨0, 0, 4⟩⟩ 8 exTable (fun _ => 7) [2] 0 2 []).newSize = some 2
+    ∧ (fileWriteRaw ⟨.f12, 10, 10, ⟨0, 0, 4⟩⟩ 8 exTable (fun _ => 7) [2] 0 6 []).newChain = some [2, 5]
+    ∧ emptyWriteTrigger 4 0 2 = true := by decide
+
+/-- as found, at or past EOF on a positive multiple of the cluster size an empty write indexes the
+    cluster list out of range: the code panics (same finding) -/
+theorem cex_empty_write_panics :
+    (fileWriteRaw ⟨.f12, 10, 10, ⟨0, 0, 4⟩⟩ 8 exTable (fun _ => 7) [2] 0 4 []).isPanic = true
+    ∧ (fileWriteRaw ⟨.f12, 10, 10, ⟨0, 0, 4⟩⟩ 8 exTable (fun _ => 7) [3, 4] 8 8 []).isPanic = true
+    ∧ emptyWriteTrigger 4 8 8 = true := by decide
 
 /-! ### as found -/
 
